@@ -3,6 +3,7 @@ package main
 // Calls: builtins, externals, inlining, modular contract application, effect analysis.
 
 import (
+	"go/token"
 	"fmt"
 	"go/types"
 	"regexp"
@@ -683,6 +684,10 @@ func (p *Program) effectsPass(fn *ssa.Function, e *effectSet) {
 			case *ssa.Defer:
 				if sc := t.Call.StaticCallee(); sc != nil && (strings.HasPrefix(sc.String(), "(*sync.Mutex).") || strings.HasPrefix(sc.String(), "(*sync.RWMutex).")) {
 					e.keys["X:held"] = true
+				}
+			case *ssa.UnOp:
+				if t.Op == token.ARROW {
+					e.keys["X:recvs"] = true
 				}
 			case *ssa.Send:
 				e.keys["X:sends"] = true
